@@ -136,7 +136,20 @@ class parse_incomplete:
         }
 
 
-CONTRACTS = [parse_incomplete]
+class d_month_yyyy(parse_incomplete):
+    """C05's kernel: 'D <month> YYYY' (canonical English month word, one- and two-digit day) is exactly
+    that date for every day, year and reference time."""
+
+    name = "parser._parser.parse/d-month-yyyy"
+    props = ["C05"]
+
+    @classmethod
+    def cases(cls, thorough=False):
+        months = (MONTHS + ABBR) if thorough else MONTHS
+        return [dict(form="full", month=m, daydigits=nd) for m in months for nd in (1, 2)]
+
+
+CONTRACTS = [parse_incomplete, d_month_yyyy]
 
 
 # ---------------------------------------------------------------------------------------------------
@@ -180,7 +193,7 @@ class weekday_only:
 
     name = "parser._parser.parse/weekday-only"
     func = "dateparser.parser._parser.parse"
-    props = ["C09", "C05"]
+    props = ["C09"]
 
     @classmethod
     def cases(cls, thorough=False):
@@ -488,7 +501,21 @@ class two_digit_year:
         return res
 
 
-CONTRACTS += [weekday_only, time_only, month_only, day_month, two_digit_year]
+class weekday_only_within_month(weekday_only):
+    """C05's kernel: the weekday-only clause where the seven-day window stays inside the month
+    (reference days 8..24 never cross), and the 'D <month> YYYY' clause via parse_incomplete."""
+
+    name = "parser._parser.parse/weekday-only-within-month"
+    props = ["C05"]
+
+    @classmethod
+    def cases(cls, thorough=False):
+        return [c for c in weekday_only.cases(thorough) if c["region"] != "crosses-month"
+                and c["PREFER_DATES_FROM"] == "current_period"]
+
+
+CONTRACTS += [weekday_only, weekday_only_within_month, time_only, month_only, day_month,
+              two_digit_year]
 
 
 # ---------------------------------------------------------------------------------------------------
